@@ -378,6 +378,7 @@ OPS: list[tuple] = [
     ("erase", 0x100, 0x20), ("erase_all",),
     ("program_once", 3, 4), ("read_once", 3), ("efuse_verify", 4, 0xF0),
     ("sb", 70), ("reset",),
+    ("kp_enroll",), ("kp_set_user_key", 3, 40), ("kp_write_key_store", 70), ("kp_read_key_store",), ("load_image", 137),
 ]
 
 
@@ -407,6 +408,16 @@ def apply_op(mb, op: tuple) -> Any:
         return mb.receive_sb_file(pat(op[1], 5))
     if k == "reset":
         return mb.reset(reopen=True)
+    if k == "kp_enroll":
+        return mb.kp_enroll()
+    if k == "kp_set_user_key":
+        return mb.kp_set_user_key(op[1], pat(op[2], 6))
+    if k == "kp_write_key_store":
+        return mb.kp_write_key_store(pat(op[1], 7))
+    if k == "kp_read_key_store":
+        return mb.kp_read_key_store()
+    if k == "load_image":
+        return mb.load_image(pat(op[1], 8))
     raise AssertionError(op)
 
 
@@ -448,6 +459,17 @@ def expected(dev: md.Core, op: tuple, mem_before: bytes, once_before: dict, cfg:
         return {"status": st, "ret": True, "effects": [("sb", pat(op[1], 5))]}
     if k == "reset":
         return {"status": cs, "ret": True, "effects": [("control", md.CMD_RESET, ())]}
+    if k == "kp_enroll":
+        return {"status": cs, "ret": True, "effects": [("key_prov", 0, ())]}
+    if k == "kp_set_user_key":
+        return {"status": cs if cs else fs, "ret": True, "effects": [("set_user_key", op[1], pat(op[2], 6))]}
+    if k == "kp_write_key_store":
+        return {"status": cs if cs else fs, "ret": True, "effects": [("write_key_store", pat(op[1], 7))]}
+    if k == "kp_read_key_store":
+        return {"status": cs if cs else fs, "ret": bytes(dev.key_store), "effects": []}
+    if k == "load_image":
+        # no command and no response: the data packets themselves are the whole exchange
+        return {"status": 0, "ret": True, "effects": [], "image": pat(op[1], 8)}
     raise AssertionError(op)
 
 
@@ -459,6 +481,7 @@ def run_op(dev, mb, op, cfg) -> dict:
     from spsdk.exceptions import SPSDKError
 
     mem_before = bytes(dev.mem)
+    img_before = len(getattr(dev, "image_sink", b""))
     sdp = op[0].startswith("s") and op[0] not in ("set_property", "sb")
     once_before = dict(dev.once) if not sdp else {}
     n_eff = len(dev.effects)
@@ -481,6 +504,8 @@ def run_op(dev, mb, op, cfg) -> dict:
     obs["effects"] = [e for e in dev.effects[n_eff:] if e[0] != "read"]
     obs["errors"] = dev.errors[n_err:]
     obs["exp"] = sdp_expected(dev, op, mem_before, cfg) if sdp else expected(dev, op, mem_before, once_before, cfg)
+    if not sdp:
+        obs["image"] = dev.image_sink[img_before:]
     return obs
 
 
@@ -548,6 +573,8 @@ def judge_clean(op, obs, transport, cfg) -> list:
     if obs["status"] != exp["status"]:
         v.append(("C10.status-mirror", tag, f"{op}: status_code {obs['status']} but the device sent {exp['status']}"))
     if ok_dev:
+        if "image" in exp and obs.get("image") != exp["image"]:
+            v.append(("C10.device-effect", tag + ":image", f"{op}: device received {len(obs.get('image', b''))} bytes, {len(exp['image'])} were given"))
         if obs["ret"] != exp["ret"]:
             v.append(("C10.result", tag, f"{op}: returned {obs['ret']!r:.80}, expected {exp['ret']!r:.80}"))
         if exp["effects"] is not None and obs["effects"] != exp["effects"]:
@@ -568,7 +595,8 @@ def canon(dev, mb) -> tuple:
     if not hasattr(dev, "props"):
         return (hashlib.sha1(bytes(dev.mem)).hexdigest()[:12], int(mb.status_code.tag), mb.hab_status, mb.cmd_status, mb.is_opened)
     return (hashlib.sha1(bytes(dev.mem)).hexdigest()[:12], tuple(sorted((k, tuple(v)) for k, v in dev.props.items())),
-            tuple(sorted(dev.once.items())), mb.status_code, mb.max_packet_size, mb.is_opened, len(dev.sb_sink))
+            tuple(sorted(dev.once.items())), mb.status_code, mb.max_packet_size, mb.is_opened, len(dev.sb_sink),
+            dev.key_store, tuple(sorted(dev.user_keys.items())), len(dev.image_sink))
 
 
 def w_bfs(task: dict) -> dict:
@@ -631,12 +659,14 @@ def clean_trace(transport: str, cfg: dict, pre: list, op: tuple) -> dict:
     obs = run_op(dev, mb, op, cfg)
     return {"obs": obs, "start": start, "end": len(link.out), "dev": dev_state(dev),
             "replen": [len(r) for r in link.out[start:]] if not serial else None,
+            "repid": [r[0] if r else -1 for r in link.out[start:]] if not serial else None,
             "frames": [f for f in link.frames_sent[fstart:]] if serial else None}
 
 
 def dev_state(dev) -> tuple:
     if hasattr(dev, "props"):
-        return (bytes(dev.mem), tuple(sorted(dev.once.items())), dev.sb_sink, tuple(sorted((k, tuple(v)) for k, v in dev.props.items())))
+        return (bytes(dev.mem), tuple(sorted(dev.once.items())), dev.sb_sink, tuple(sorted((k, tuple(v)) for k, v in dev.props.items())),
+                dev.key_store, tuple(sorted(dev.user_keys.items())), dev.image_sink)
     return (bytes(dev.mem), tuple(e for e in dev.effects if e[0] in ("jump", "skip_dcd")))
 
 
@@ -672,7 +702,11 @@ def fault_specs(transport: str, tr: dict, second: bool = False) -> list:
                 out.append(["hdrflip", idx, 0, b])
     else:
         for idx in range(tr["start"], tr["end"]):
-            out += [["drop", idx], ["truncate", idx], ["abort", idx], ["dup", idx], ["empty", idx], ["short", idx, 1], ["short", idx, 4]]
+            out += [["drop", idx], ["truncate", idx], ["abort", idx], ["empty", idx], ["short", idx, 1], ["short", idx, 4]]
+            if tr["repid"][idx - tr["start"]] == 3:
+                # only command-response reports are duplicated: the host truncates surplus *data* to the announced length
+                # by design (fixed-size reports may be padded), so a duplicated data report cannot be told from padding
+                out.append(["dup", idx])
             for byte in range(4):
                 for b in range(8):
                     out.append(["hdrflip", idx, byte, b])
@@ -682,8 +716,9 @@ def fault_specs(transport: str, tr: dict, second: bool = False) -> list:
 def w_fault(task: dict) -> dict:
     transport, cfg, pre, op = task["transport"], task["cfg"], task["pre"], tuple(task["op"])
     base = clean_trace(transport, cfg, pre, op)
-    if base["obs"].get("horizon") or "undocumented" in base["obs"]:
-        return {"viol": [], "count": {"fault_executions": 0}}
+    if base["obs"].get("horizon") or "exc" in base["obs"]:
+        # the fault-free run itself fails: that is the BFS's finding, there is no baseline to compare faults with
+        return {"viol": [], "count": {"fault_executions": 0, "fault_tasks_without_baseline": 1}}
     specs = task.get("specs") or fault_specs(transport, base)
     viol = []
     outcomes: dict[str, int] = {}
@@ -709,18 +744,25 @@ def w_fault(task: dict) -> dict:
         if "exc" in obs:
             outcomes["raised"] = outcomes.get("raised", 0) + 1
             continue
-        same_result = obs["ret"] == base["obs"]["ret"] and obs["status"] == base["obs"]["status"]
+        same_ret = obs["ret"] == base["obs"]["ret"]
+        same_result = same_ret and obs["status"] == base["obs"]["status"]
         same_device = dev_state(dev) == base["dev"]
         # SDP: status 2 ("HAB is locked") is information, not failure, when the fault-free run reports it too
-        claims_success = (obs["status"] == 0 or (is_sdp(transport) and obs["status"] == base["obs"]["status"])) and obs["ret"] not in FAILISH
+        # a boolean True is a claim of success whatever status_code says ("False in case of any problem; True otherwise");
+        # data results claim success together with a success status
+        claims_success = obs["ret"] is True or \
+            ((obs["status"] == 0 or (is_sdp(transport) and obs["status"] == base["obs"]["status"])) and obs["ret"] not in FAILISH)
         if same_result and same_device:
             outcomes["benign"] = outcomes.get("benign", 0) + 1
+        elif same_ret and same_device:
+            # right result, right device state, only status_code differs (e.g. a corrupted HAB word read as "locked")
+            outcomes["status-only"] = outcomes.get("status-only", 0) + 1
         elif not claims_success:
             outcomes["failure-reported"] = outcomes.get("failure-reported", 0) + 1
         else:
             what = "wrong-result" if not same_result else "wrong-device-effect"
             viol.append(("C10.success-with-wrong-data", tag + ":" + what,
-                         f"{op} with fault {spec}: returned {obs['ret']!r:.70} status 0; fault-free run returns {base['obs']['ret']!r:.70}; "
+                         f"{op} with fault {spec}: returned {obs['ret']!r:.70} status {obs['status']}; fault-free run returns {base['obs']['ret']!r:.70}; "
                          f"device state equal: {same_device} | cfg={cfg} pre={pre}"))
             outcomes[what] = outcomes.get(what, 0) + 1
     return {"viol": core.dedupe(viol), "count": {"fault_executions": n, "stream_bytes": base["end"] - base["start"]}, "outcomes": outcomes}
@@ -759,7 +801,7 @@ def run(ctx: core.Ctx) -> None:
     if ctx.tier == "quick":
         fault_ops = [("get_property", 1), ("get_property", 99), ("set_property", 10, 0), ("read", 0x10, 31), ("read", 0x20, 33), ("write", 0x10, 31),
                      ("write", 0x21, 33), ("fill", 0x40, 8, 0xA5A5A5A5), ("erase", 0x100, 0x20), ("program_once", 3, 4), ("read_once", 3),
-                     ("efuse_verify", 4, 0xF0), ("sb", 70), ("reset",)]
+                     ("efuse_verify", 4, 0xF0), ("sb", 70), ("reset",), ("kp_write_key_store", 70), ("kp_read_key_store",), ("load_image", 137)]
     fcfgs = [{"max_packet": 32}, {"max_packet": 32, "cmd_exception": True}]
     if ctx.tier == "thorough":
         fcfgs += [{"max_packet": None}, {"max_packet": 56}, {"max_packet": 32, "final_status": md.FAIL}]
@@ -796,7 +838,7 @@ def run(ctx: core.Ctx) -> None:
     ctx.cov["fault_outcomes"] = fo
     ctx.cov["per_system"] = per
     ctx.cov["depth"] = depth
-    ctx.rule = ("fault-free: BFS over all sequences of 27 operations (boundary addresses/lengths) up to the depth per (transport, device "
+    ctx.rule = ("fault-free: BFS over all sequences of 32 operations (boundary addresses/lengths) up to the depth per (transport, device "
                 "configuration), canonical state = (device memory digest, properties, program-once words, host status code, cached packet "
                 "size, open flag, SB sink length); faults: for every listed single operation (from 2-4 pre-histories) every byte offset of "
                 "the device->host stream x {8 bit flips, drop, truncate, insert 0x00, short read} and every frame x {NAK, ABORT, duplicate} "
